@@ -683,3 +683,73 @@ func (e *c05Env) routeXattrOrder(seed uint64) {
 			map[string]interface{}{"route": "xattr-order", "keys": keys})
 	}
 }
+
+// routeTarShuffle: tar streams that are not a walk -- root entry or directory entries missing,
+// neighbours swapped.  There is no property to check on such input; what is checked is that the
+// model of tar()'s stream logic (fsBufReader, path.Dir(f.Path) == dir) writes the same bytes.
+func (e *c05Env) routeTarShuffle(tree *c05Node, srcDir string, src []*c05Ent, r *vh.Rand) {
+	if e.o == nil || !tarRepresentable(src) || len(src) < 3 {
+		return
+	}
+	for _, s := range src {
+		if s.Data == nil && s.kind() == "file" && s.Size > 0 {
+			return // large tree: contents were not kept
+		}
+	}
+	ents := append([]*c05Ent{}, src...)
+	kind := r.Intn(4)
+	switch kind {
+	case 0: // no root entry
+		ents = ents[1:]
+	case 1: // a directory entry is missing
+		var dirs []int
+		for i, s := range ents {
+			if i > 0 && s.kind() == "dir" {
+				dirs = append(dirs, i)
+			}
+		}
+		if len(dirs) == 0 {
+			return
+		}
+		i := dirs[r.Intn(len(dirs))]
+		ents = append(ents[:i:i], ents[i+1:]...)
+	case 2: // two neighbours swapped
+		i := 1 + r.Intn(len(ents)-2)
+		ents[i], ents[i+1] = ents[i+1], ents[i]
+	default: // a rotation of everything below the root
+		k := 1 + r.Intn(len(ents)-1)
+		rest := append(append([]*c05Ent{}, ents[k:]...), ents[1:k]...)
+		ents = append(ents[:1:1], rest...)
+	}
+	c := &c05Case{Tree: tree, Route: fmt.Sprintf("tar-shuffle-%d", kind), Digest: "sha512-256", Entries: len(ents)}
+	tb, err := buildTar(srcDir, ents)
+	if err != nil {
+		return
+	}
+	in := e.scratch("shuf") + ".tar"
+	out := e.scratch("shuf") + ".catar"
+	defer os.Remove(in)
+	defer os.Remove(out)
+	os.WriteFile(in, tb, 0600)
+	o, cerr := e.cli(120*time.Second, "tar", "--input-format", "tar", out, in)
+	m, ok, err := e.modelTar(ents)
+	if err != nil {
+		e.r.Note("oracle: %v", err)
+		return
+	}
+	e.r.Corr()
+	e.r.Dist(fmt.Sprintf("tar-shuffle:%d", kind))
+	switch {
+	case cerr != nil && ok:
+		c.Detail = short(o)
+		e.r.Fail("corr", "corr:C05/tar-stream-order", "desync tar --input-format tar fails on a reordered stream the model encodes: "+short(o), c)
+	case cerr == nil && !ok:
+		e.r.Fail("corr", "corr:C05/tar-stream-order", "the model has no archive for a reordered stream the implementation encodes", c)
+	case cerr == nil && ok:
+		got, _ := os.ReadFile(out)
+		if i := firstDiff(got, m); i >= 0 {
+			c.Detail = fmt.Sprintf("first difference at byte %d of %d/%d", i, len(got), len(m))
+			e.r.Fail("corr", "corr:C05/tar-stream-order", "archive of a reordered tar stream differs from the model of tar(): "+c.Detail, c)
+		}
+	}
+}
